@@ -310,6 +310,10 @@ pub fn write_step(rng: &mut Rng, ki: Option<usize>, vi: usize, len: u64, cfg: &W
             }
             st["chunks"] = json!(c);
         }
+        if rng.chance(1, 8) {
+            // the scatter/gather entry point of the writer (write_vectored): same bytes, two slices per call
+            st["vectored"] = json!(true);
+        }
     }
     st
 }
@@ -626,7 +630,16 @@ pub fn gen_c09(rng: &mut Rng) -> Value {
         audit_what: &["metadata", "read", "read_hash", "exists", "list"],
         wcfg: WriteCfg { by_hash_pct: 10, rich_opts: true, declare_size_pct: 0, algos: rng.chance(1, 3), ends: false },
     };
-    gen_history(rng, &m)
+    let mut sc = gen_history(rng, &m);
+    if rng.chance(1, 10) {
+        // one of the cache's top-level directories is a symlink to a directory elsewhere (moved to another disk and
+        // linked back): removals and clear must still remove what they name
+        if let Some(steps) = sc["steps"].as_array_mut() {
+            let at = rng.idx(steps.len().min(4) + 1).min(steps.len());
+            steps.insert(at, json!({"k":"env","act":"toplevel_symlink","path":format!("$C/{}", "content-v2"),"target":"$R/elsewhere"}));
+        }
+    }
+    sc
 }
 
 pub fn gen_c10(rng: &mut Rng) -> Value {
